@@ -424,3 +424,78 @@ def bounded_save_load(pack, pid):
                          'counted_as_proved': False})
     if bad:
         pack.violation(name, {'bounded': True, 'inputs': bad, 'native_cmd': 'System.save_config(path); System(config_path=path); compare every field'})
+
+
+
+FPATHS = 'andes/utils/paths.py'
+
+
+def get_config_path_c(pid):
+    """get_config_path: the answer is a function of what is on disk when it is asked: ./<name> if that file exists now, else
+    ~/.andes/<name> if that exists now, else None."""
+    from pyvc.symval import Mark, Bo, Module
+    S_ = TStr.sort
+    HOME, JOINED = fresh('home', S_), fresh('home_rc', S_)
+    IN_CWD, IN_HOME = fresh('exists_in_cwd', Bo), fresh('exists_in_home', Bo)
+
+    def isfile(ex, st, args, kw, node):
+        a = args[0]
+        if a is st.env['file_name'] or (isinstance(a, Opaque) and a.term.eq(st.env['file_name'].term)):
+            return IN_CWD
+        if isinstance(a, Opaque) and a.term.eq(JOINED):
+            return IN_HOME
+        return fresh('exists', Bo)
+
+    def join(ex, st, args, kw, node):
+        ok = len(args) == 3 and isinstance(args[0], Opaque) and args[0].term.eq(HOME) and args[1] == '.andes' and args[2] is st.env['file_name']
+        return Opaque(JOINED if ok else fresh('other_path', S_))
+
+    def post(old, new, res):
+        fn = old.st.env['file_name'].term
+        r = z3.BoolVal(res is None) if not isinstance(res, Opaque) else None
+        if isinstance(res, Opaque):
+            return z3.Or(z3.And(IN_CWD, res.term == fn), z3.And(z3.Not(IN_CWD), IN_HOME, res.term == JOINED))
+        return z3.And(z3.Not(IN_CWD), z3.Not(IN_HOME)) if res is None else False
+    c = Contract(FPATHS, 'get_config_path', pid=pid, params={'file_name': TStr()}, schema={},
+                 calls={'os.path.expanduser': lambda ex, st, a, k, n: Opaque(HOME), 'os.path.isfile': isfile, 'os.path.join': join},
+                 globals_={'os': Module('os')},
+                 ensures=[('cwd-file-if-present-now,else-home-file-if-present-now,else-None', post)], modifies=[])
+    c.merge = False
+    return c
+
+
+def replay_get_config_path(obligation, model, meta):
+    """native run of the real get_config_path while the files appear and disappear: every call must reflect the disk at that moment"""
+    import os
+    import shutil
+    import tempfile
+    from andes.utils.paths import get_config_path
+    tmp = tempfile.mkdtemp(prefix='verif_cfgpath_')
+    old_home, old_cwd = os.environ.get('HOME'), os.getcwd()
+    try:
+        home, cwd = os.path.join(tmp, 'home'), os.path.join(tmp, 'cwd')
+        os.makedirs(os.path.join(home, '.andes'))
+        os.makedirs(cwd)
+        os.environ['HOME'] = home
+        os.chdir(cwd)
+        hrc, crc = os.path.join(home, '.andes', 'andes.rc'), os.path.join(cwd, 'andes.rc')
+        steps = [('no file', None, None), ('home file created', hrc, 'create'), ('cwd file created', crc, 'create'), ('cwd file removed', crc, 'remove'),
+                 ('home file removed', hrc, 'remove')]
+        for label, path, action in steps:
+            if action == 'create':
+                open(path, 'w').write('[System]\nfreq = 50\n')
+            elif action == 'remove':
+                os.remove(path)
+            want = 'andes.rc' if os.path.isfile(crc) else (hrc if os.path.isfile(hrc) else None)
+            got = get_config_path()
+            if got != want and not (got is not None and want is not None and os.path.abspath(got) == os.path.abspath(want)):
+                return {'confirmed': True, 'inputs': {'sequence up to': label}, 'observed': 'get_config_path() -> %r, on disk now: %r' % (got, want),
+                        'native_cmd': 'get_config_path() in a process where andes.rc files are created and removed'}
+    finally:
+        os.chdir(old_cwd)
+        if old_home is None:
+            os.environ.pop('HOME', None)
+        else:
+            os.environ['HOME'] = old_home
+        shutil.rmtree(tmp, ignore_errors=True)
+    return {'confirmed': False, 'tried': 5}
